@@ -449,7 +449,7 @@ class RuleFiles(Harness):
         for mult in (0.5, 1.0, 1.5, 2.0):
             for split in ((3,), (1, 2), (2, 1), (1, 1, 1)):
                 out.append({"kind": "distances", "mult": mult, "split": list(split)})
-        bodies = ["a", "a or b", "not a", "( a and b )"]
+        bodies = ["a", "a or b", "not a", "( a and b )", "nope", "a or nope"]      # (nope: a name without a profile)
         uses = ["{x}", "c and {x}", "not ( {x} ) or c", "cds ( c and {x} )"]
         for body in bodies:
             for use in uses:
